@@ -149,6 +149,19 @@ def case_key(scn, meta):
     return (t, cfg, scn['shape'])
 
 
+def nontrivial(meta):
+    """a lookup, a conversion, a smart pointer, an update in between, or an error is involved"""
+    op = meta.get('op') or {}
+    t = meta['t']
+    if t == 'C':
+        return meta['age'] > 0 or meta['route'] != 'exact'
+    if t == 'P':
+        return op['route'] != 'exact'
+    if t == 'X':
+        return meta['exp'][0] == 'error'
+    return t == 'S'
+
+
 def judge_scenario(ctx, scn, mdl, inc_hash, compiler, stats, prefix='c09', verbose=False, max_reports=3):
     """build, run, judge one scenario; reports violations through ctx; returns number of oracle failures"""
     text = G.emit_cpp(scn)
@@ -179,8 +192,8 @@ def judge_scenario(ctx, scn, mdl, inc_hash, compiler, stats, prefix='c09', verbo
         if t in ('C', 'P', 'I', 'S', 'X'):
             stats['evaluations'] += 1
             stats['by_type'][t] = stats['by_type'].get(t, 0) + 1
-            k = case_key(scn, meta)
-            stats['distinct'].add(hashlib.sha1(repr(k).encode()).hexdigest())
+            if nontrivial(meta):
+                stats['distinct'].add(hashlib.sha1(repr(case_key(scn, meta)).encode()).hexdigest())
             if t == 'C':
                 stats['calls'] += 1
                 if meta['age'] > 0:
@@ -381,7 +394,9 @@ def finish(ctx, stats):
         'rule': 'one evaluation = one judged line of a generated program: a virtual_ptr made through a route (P), its get/*/->/owner (I), a call made '
                 'through it and through a plain reference to its pointee printed side by side (C), its _vptr() against the current table after an '
                 'update (S); each is judged by the oracle (the program\'s own reference call, addresses, Python\'s dispatch) and compared with the '
-                'extracted model. distinct = sha1 of (line type, policy configuration, hierarchy shape, route, static class | age in updates | arity)',
+                'extracted model. distinct = sha1 of (line type, policy configuration, hierarchy shape, route, static class | age in updates | arity); '
+                'non-trivial = a pointer not made from an object of exactly its static type, a call through such a pointer or through a pointer '
+                'made before an update, a same-table check after an update (identity lines are not counted)',
         'samples': stats['samples'],
         'input_distribution': {
             'shapes': stats['shapes'], 'policies': stats['policies'], 'routes': stats['routes'],
